@@ -9,6 +9,7 @@ mod c13;
 mod c15;
 mod c17;
 mod c19;
+mod c20;
 mod ctl;
 mod driver;
 mod expat;
@@ -63,6 +64,7 @@ fn main() {
         "C15" => c15::run(&mut rep, &tier, seed),
         "C17" => c17::run(&mut rep, &tier, seed),
         "C19" => c19::run(&mut rep, &tier, seed),
+        "C20" => c20::run(&mut rep, &tier, seed),
         other => Err(format!("no harness for property {other}")),
     };
     if let Err(e) = r {
